@@ -10,11 +10,17 @@
     [C01_request_exact]: for EVERY backend request (no fragment), the final
     formula has a model extending an assignment of the variables below [b_fresh]
     iff that assignment satisfies the clauses and every cardinality request.
-    [C01_compile_denotes]: the request itself, read semantically. *)
+    [C01_compile_denotes]: the request itself, read semantically.
+    [C01_atleast_window] / [C01_exactly_in_a_row_window] (kinds outside F1, for
+    every k >= 1 and every window length): the implications that
+    AtLeastKInARow / ExactlyKInARow hand to the Tseitin conversion for one
+    window hold iff every maximal run of the level in the window has length
+    at least k / exactly k. *)
 From Coq Require Import ZArith List Bool.
 From SP Require Import Base.Sat Base.Bits Design.Flat Design.Sem.
+From SP Require Import Logic.Formula.
 From SP Require Import Encode.Compile Encode.CodeSem Encode.Generic Encode.F1Kinds Encode.F1Sem
-     Encode.CompileProofs Encode.CompileCorollaries.
+     Encode.CompileProofs Encode.CompileCorollaries Encode.Runs Encode.InARow Encode.PropertyLemmas.
 
 Theorem C01_sound :
   forall (fb : flat) (b : backend) (ok : bool) (n' : Z) (final : cnf) (t : asg),
@@ -22,7 +28,7 @@ Theorem C01_sound :
     compile fb = COk b -> full_cnf b = (ok, n', final) ->
     sat t final = true ->
     exists q, onehot fb t q /\ valid_b (code_sem fb) q = true.
-Proof. intros fb b ok n' final t HF1 HT Hc. exact (models_are_valid fb HF1 HT b Hc ok n' final t). Qed.
+Proof. exact c01_sound. Qed.
 Print Assumptions C01_sound.
 
 Theorem C01_request_exact :
@@ -50,12 +56,28 @@ Theorem C01_compile_denotes :
 Proof. exact compile_denotes. Qed.
 Print Assumptions C01_compile_denotes.
 
+Theorem C01_atleast_window :
+  forall (k : nat) (vl : list nat) (s : asg),
+    (0 < k)%nat -> Forall (fun v => (0 < v)%nat) vl ->
+    (eval s (FAnd (atleast_impls k vl (windows (S k) vl))) = true <->
+     Forall (fun n => (k <= n)%nat) (bruns (map (fun v => s (zn v)) vl))).
+Proof. exact atleast_impls_spec. Qed.
+Print Assumptions C01_atleast_window.
+
+Theorem C01_exactly_in_a_row_window :
+  forall (k : nat) (vl : list nat) (s : asg),
+    (0 < k)%nat -> Forall (fun v => (0 < v)%nat) vl ->
+    (eval s (FAnd (match windows k vl with
+                   | nil => map (fun v => FNot (fv v)) vl
+                   | sub => ekr_impls k sub
+                   end)) = true <->
+     Forall (fun n => n = k) (bruns (map (fun v => s (zn v)) vl))).
+Proof. exact ekr_impls_spec. Qed.
+Print Assumptions C01_exactly_in_a_row_window.
+
 (** the hypotheses are satisfiable: a colour x text crossing with a derived
     congruency factor, AtMostKInARow on the derived level and a Pin *)
 Example C01_example :
   in_f1 ex_stroop = true /\ (0 < T ex_stroop)%nat /\
   (exists b, compile ex_stroop = COk b) /\ length (all_valid (code_sem ex_stroop)) = 6%nat.
-Proof.
-  split; [exact (proj1 ex_stroop_in_f1)|]. split; [exact (proj2 ex_stroop_in_f1)|].
-  split; [destruct ex_stroop_compiles as (b & E & _); now exists b|exact ex_stroop_valid_count].
-Qed.
+Proof. exact ex_stroop_facts. Qed.
